@@ -55,7 +55,7 @@ structure Inv (s : St) : Prop where
   resOk : s.state = .joined → s.w.isMsa = true →
     ∃ r, s.result = some r ∧ parseOutput (toolRows s.tool s.n) (badLengths s.tool s.n) s.n = .ok r
 
-theorem inv_init (w : Wrapper) (t : Tool) (n : Nat) (k : String) : Inv (init w t n k) := by
+theorem inv_init (w : Wrapper) (t : Tool) (n : Nat) (k : String) (b : Bool := false) : Inv (init w t n k b) := by
   constructor <;> simp [init, AppState.terminal]
 
 theorem evaluate_ok_msa (s : St) (r) (h : evaluate s = .ok r) (hm : s.w.isMsa = true) :
@@ -199,10 +199,12 @@ theorem inv_joinLocalT (s : St) (t : Timeout) (h : Inv s) (hs : s.state = .runni
     (hw : s.w ≠ .base) : Inv (joinLocalT s t).1 := by
   unfold joinLocalT
   split
-  · have hnt : s.state.terminal = false := by rcases hs with hs | hs <;> simp [hs, AppState.terminal]
-    exact cancelBody_inv s (h.nonterm hnt) h.cwd
-      (result_none_of_nonterminal s h (by rcases hs with hs | hs <;> simp [hs]))
-  · exact inv_joinLocal s _ h hs hw
+  · exact h
+  · split
+    · have hnt : s.state.terminal = false := by rcases hs with hs | hs <;> simp [hs, AppState.terminal]
+      exact cancelBody_inv s (h.nonterm hnt) h.cwd
+        (result_none_of_nonterminal s h (by rcases hs with hs | hs <;> simp [hs]))
+    · exact inv_joinLocal s _ h hs hw
 
 theorem inv_joinBase (s : St) (t : Bool) (h : Inv s) (hs : s.state = .running ∨ s.state = .finished)
     (hw : s.w = .base) : Inv (joinBase s t).1 := by
@@ -337,6 +339,7 @@ theorem run_inv (s : St) (cs : List Call) (h : Inv s) : Inv (run s cs) := by
 theorem parseOutput_err (out : List (Nat × Nat)) (rg : Bool) (n : Nat) (e : Err)
     (h : parseOutput out rg n = .error e) : e = errEval := by
   unfold parseOutput at h
+  simp only at h
   repeat' split at h
   all_goals simp_all
 
@@ -380,8 +383,10 @@ theorem joinLocal_res (s : St) (t : Bool) : (joinLocal s t).2 ≠ .err .stateErr
 theorem joinLocalT_res (s : St) (t : Timeout) : (joinLocalT s t).2 ≠ .err .stateError := by
   unfold joinLocalT
   split
-  · simp [errTimeout]
-  · exact joinLocal_res s _
+  · simp [errOverflow]
+  · split
+    · simp [errTimeout]
+    · exact joinLocal_res s _
 
 theorem joinBase_res (s : St) (t : Bool) : (joinBase s t).2 ≠ .err .stateError := by
   unfold joinBase
@@ -588,8 +593,10 @@ theorem env_joinLocal (s : St) (t : Bool) : env (joinLocal s t).1 = env s := by
 theorem env_joinLocalT (s : St) (t : Timeout) : env (joinLocalT s t).1 = env s := by
   unfold joinLocalT
   split
-  · exact env_cancelBody s
-  · exact env_joinLocal s _
+  · rfl
+  · split
+    · exact env_cancelBody s
+    · exact env_joinLocal s _
 
 theorem env_joinBase (s : St) (t : Bool) : env (joinBase s t).1 = env s := by
   unfold joinBase
@@ -716,11 +723,13 @@ theorem joinLocal_ends (s : St) (t : Bool) :
 
 theorem joinLocalT_ends (s : St) (t : Timeout) :
     ((joinLocalT s t).2 = .ok "" → (joinLocalT s t).1.state = .joined) ∧
-    (∀ e, (joinLocalT s t).2 = .err e → (joinLocalT s t).1.state = .cancelled) := by
+    (∀ e, (joinLocalT s t).2 = .err e → e ≠ errOverflow → (joinLocalT s t).1.state = .cancelled) := by
   unfold joinLocalT
   split
-  · exact ⟨by simp, fun e _ => cancelBody_state _⟩
-  · exact joinLocal_ends s _
+  · exact ⟨by simp, fun e he hne => by simp at he; exact absurd he.symm hne⟩
+  · split
+    · exact ⟨by simp, fun e _ _ => cancelBody_state _⟩
+    · exact ⟨(joinLocal_ends s _).1, fun e he _ => (joinLocal_ends s _).2 e he⟩
 
 theorem joinBase_ends (s : St) (t : Bool) :
     ((joinBase s t).2 = .ok "" → (joinBase s t).1.state = .joined) ∧
@@ -735,13 +744,14 @@ theorem joinBase_ends (s : St) (t : Bool) :
 
 theorem join_ends (s : St) (t : Timeout) :
     ((step s (.join t)).2 = .ok "" → (step s (.join t)).1.state = .joined) ∧
-    (∀ e, (step s (.join t)).2 = .err e → e ≠ .stateError → (step s (.join t)).1.state = .cancelled) := by
+    (∀ e, (step s (.join t)).2 = .err e → e ≠ .stateError → e ≠ errOverflow →
+      (step s (.join t)).1.state = .cancelled) := by
   simp only [step, guard_join]
   split
   · split
-    · exact ⟨(joinBase_ends s _).1, fun e he _ => (joinBase_ends s _).2 e he⟩
-    · exact ⟨(joinLocalT_ends s t).1, fun e he _ => (joinLocalT_ends s t).2 e he⟩
-  · refine ⟨by simp, fun e he hne => ?_⟩
+    · exact ⟨(joinBase_ends s _).1, fun e he _ _ => (joinBase_ends s _).2 e he⟩
+    · exact ⟨(joinLocalT_ends s t).1, fun e he _ ho => (joinLocalT_ends s t).2 e he ho⟩
+  · refine ⟨by simp, fun e he hne _ => ?_⟩
     simp at he; exact absurd he.symm hne
 
 theorem cancel_ends (s : St) : (step s .cancel).2 = .ok "" → (step s .cancel).1.state = .cancelled := by
@@ -749,5 +759,19 @@ theorem cancel_ends (s : St) : (step s .cancel).2 = .ok "" → (step s .cancel).
   split
   · intro _; exact cancelBody_state s
   · simp
+
+
+/-- Without repeated headers `OrderedDict` keeps every record. -/
+theorem uniq_of_nodup (l : List Nat) (h : l.Nodup) : uniq l = l := by
+  induction l with
+  | nil => rfl
+  | cons x xs ih =>
+    simp only [List.nodup_cons] at h
+    simp only [uniq, ih h.2]
+    congr 1
+    apply List.filter_eq_self.2
+    intro a ha
+    have : a ≠ x := fun hax => h.1 (hax ▸ ha)
+    simpa using this
 
 end BiotiteModel.C20
